@@ -2,7 +2,11 @@
 
 package pool
 
-import "go.uber.org/zap"
+import (
+	"context"
+
+	"go.uber.org/zap"
+)
 
 // Peer and subscriber names starting with "sym:" stand for arbitrary strings: the engine gives each an arbitrary
 // 64-bit FNV value (see the hashString stub). Assumed: distinct names have distinct FNV values and no two combined
@@ -135,3 +139,70 @@ func VerifC17_Ownership() {
 }
 
 func init() { vHarness["VerifC17_Ownership"] = VerifC17_Ownership }
+
+func verifRealPool(self string, peers []string) *PeerPool {
+	p, err := NewPeerPool(PeerPoolConfig{NodeID: self, Peers: append([]string(nil), peers...), Network: "10.0.0.0/29", Gateway: "10.0.0.1"})
+	vAssume(err == nil)
+	return p
+}
+
+// Every order in which peers are configured or added: a node that was configured with all peers and a node that
+// learned one of them at run time (AddPeer, before any health probe; or RemovePeer followed by AddPeer) route every
+// subscriber to the same serving node - the owner.
+func VerifC17_ConfiguredVsAdded() {
+	n := vParam("peers", 3)
+	verifAssumeDistinct(n)
+	base := vPeers[:n]
+	owner := rendezvousHash(vSub, base)
+	self := base[ndPick("self", n)]
+	configured := verifRealPool(self, base)
+	late := ndPick("late", n)
+	vAssume(base[late] != self)
+	var initial []string
+	for i, p := range base {
+		if i != late {
+			initial = append(initial, p)
+		}
+	}
+	learned := verifRealPool(self, initial)
+	learned.AddPeer(base[late])
+	if ndPick("flap", 2) == 1 {
+		learned.RemovePeer(base[late])
+		learned.AddPeer(base[late])
+	}
+	vAssert(configured.GetOwner(vSub) == owner && learned.GetOwner(vSub) == owner, "owner depends on how the peer set was built")
+	vAssert(configured.getHealthyOwner(vSub) == owner, "a freshly configured node does not route to the owner")
+	vAssert(learned.getHealthyOwner(vSub) == owner, "a node that learned a peer at run time routes its subscribers elsewhere than a node configured with it")
+	vReach("end")
+}
+
+// A request is served from exactly one node's pool: a fallback node that served a subscriber while its owner looked
+// unhealthy hands it back when the owner recovers - the next request entering there is answered by the owner.
+func VerifC17_ServedByOne() {
+	n := vParam("peers", 2)
+	verifAssumeDistinct(n)
+	base := vPeers[:n]
+	owner := rendezvousHash(vSub, base)
+	self := base[ndPick("self", n)]
+	vAssume(self != owner)
+	node := verifRealPool(self, base)
+	ctx := context.Background()
+	// the owner looks unhealthy: the ranking's next healthy node serves (assumed to be this node)
+	node.peerHealthMap[owner].healthy = false
+	vAssume(node.getHealthyOwner(vSub) == self)
+	r1, err := node.Allocate(ctx, vSub, nil)
+	vAssume(err == nil)
+	vAssert(r1.NodeID == self, "fallback allocation was not served locally")
+	// the owner recovers
+	node.peerHealthMap[owner].healthy = true
+	vHTTPNext(vJSON(&AllocationResponse{IP: "10.0.0.6", SubscriberID: vSub, NodeID: owner}))
+	r2, err := node.Allocate(ctx, vSub, nil)
+	vAssume(err == nil)
+	vAssert(r2.NodeID == owner, "after the owner recovered the fallback node still serves the subscriber from its own pool (two pools serve one subscriber)")
+	vReach("end")
+}
+
+func init() {
+	vHarness["VerifC17_ConfiguredVsAdded"] = VerifC17_ConfiguredVsAdded
+	vHarness["VerifC17_ServedByOne"] = VerifC17_ServedByOne
+}
